@@ -5,7 +5,7 @@ VARIABLE k
 TInit == /\ k \in 1..Len(TLog)
          /\ d = [vt |-> TLog[k].vt, pn |-> TLog[k].pn, std |-> TLog[k].std, dmean |-> TLog[k].dmean, dstd |-> TLog[k].dstd,
                  spacing |-> TLog[k].spacing, fu |-> TLog[k].fu, feats |-> TLog[k].feats, missing |-> TLog[k].missing, cols |-> TLog[k].cols,
-                 nulltime |-> TLog[k].nulltime, idkind |-> TLog[k].idkind, tab |-> TLog[k].tab, src |-> TLog[k].src]
+                 nulltime |-> TLog[k].nulltime, idkind |-> TLog[k].idkind, tab |-> TLog[k].tab, src |-> TLog[k].src, noise |-> TLog[k].noise]
 TNext == UNCHANGED <<k, d>>
 TSpec == TInit /\ [][TNext]_<<k, d>>
 Rec == TLog[k]
